@@ -145,6 +145,26 @@ var intCorners = []float64{0, 1, -1, 2, 7, 31, 32, 33, 127, 128, -128, -129, 255
 // integer literals beyond 2^53 that are not doubles: ES5 7.8.3 rounds the literal's value; otto keeps an int64
 var inexactIntLits = []string{"9007199254740993", "9007199254740995", "18014398509481985", "1152921504606846977", "123456789012345678", "9223372036854775807"}
 
+// genWideInt: a random integer in (2^53, 2^63) near a double boundary, as literal or Go integer.
+func genWideInt(t *rapid.T, base uint64) Operand {
+	n := base + uint64(rapid.IntRange(0, 9).Draw(t, "widedelta"))
+	lit := strconv.FormatUint(n, 10)
+	x, _ := strconv.ParseFloat(lit, 64)
+	o := numOp(x, rapid.SampledFrom([]string{"dec", "i64", "int", "u64", "uint"}).Draw(t, "widevia"))
+	o.Lit = lit
+	return o
+}
+
+// genWideBase: 2^k * m - 4 for 53 <= k <= 62, so that base..base+9 straddles representable doubles.
+func genWideBase(t *rapid.T) uint64 {
+	k := rapid.IntRange(53, 62).Draw(t, "widek")
+	m := uint64(rapid.IntRange(1, 1<<uint(62-k)).Draw(t, "widem"))
+	if 62-k > 20 {
+		m = uint64(rapid.IntRange(1, 1<<20).Draw(t, "widem2"))
+	}
+	return m<<uint(k) + (uint64(1)<<uint(k-53))*uint64(rapid.IntRange(0, 3).Draw(t, "wideulp")) - 4
+}
+
 func genNumber(t *rapid.T) Operand {
 	if rapid.IntRange(0, 24).Draw(t, "inexactlit") == 24 {
 		lit := rapid.SampledFrom(inexactIntLits).Draw(t, "lit")
